@@ -190,6 +190,11 @@ class ScalarAngleOrValue(ApertureAttribute):
         # if theta is not a Quantity, it is assumed to be in radians
         if not isinstance(value, u.Quantity):
             value <<= u.radian
+        else:
+            # copy so that the Quantity object is not shared with
+            # another aperture (e.g., an indexed aperture and its
+            # parent) or with the caller
+            value = value.copy()
         instance.__dict__[self.name] = value
 
     def _validate(self, value):
